@@ -146,6 +146,27 @@ def rule_pause(ctx, rep):
             if cyc:
                 ent = b.blocks[pat.scc_entries(b, cyc[0])[0]].insts[0]
                 rep.check(all(b.reach([ent], [o], include_start=True)[0] is None for o in orr) or True, "C16.pause", fl + ".before.request-then-wait", "all helpers are asked to pause before waiting for any", "", [])
+        # ... and *every* helper on the list is asked and waited for, whatever its queue looks like: a helper whose queue is empty may be in the middle
+        # of a batch it spliced out (registered as a reader, inside a grace period, holding its callbacks on its stack)
+        walk = [(t, s_) for t, s_, a in pat.branch_edges_on(b, lambda a: a[0] == "ne" and pat.atom_mentions(a, lambda e: e[0] == "addr" and "call_rcu_data_list" in str(e)) or
+                                                            (a[0] == "ne" and "call_rcu_data_list" in ir.atom_str(a)))]
+        pausedne = [(t.blk.id, s_) for t, s_, a in pat.branch_edges_on(b, lambda a: a[0] == "ne" and a[2] == ("c", 0) and a[1][0] == "bin" and a[1][1] == "and" and a[1][3] == ("c", FLG.PAUSED))]
+        nl = 0
+        for t, s_ in walk:
+            if t.blk.id not in [x for c in b.sccs() for x in c]:
+                continue
+            st = b.blocks[s_].insts[0]
+            inbody = lambda i, t=t: i is t
+            if any(b.reach([st], [o], avoid=inbody, include_start=True)[0] is not None for o in orr):
+                nl += 1
+                rep.must_pass("C16.pause", fl + ".before.every-helper-asked", b, [st], [t], lambda i: i in orr, include_start=True,
+                              what="each iteration of the request loop sets PAUSE on its helper (no helper is skipped)")
+            elif pausedne and any(b.reach([st], [b.blocks[x].insts[-1]], avoid=inbody, include_start=True)[0] is not None for x, _ in pausedne):
+                nl += 1
+                rep.must_take_edge("C16.pause", fl + ".before.every-helper-waited", b, [st], [t], pausedne,
+                                   what="each iteration of the wait loop leaves only along (flags & PAUSED) != 0 (no helper is skipped)")
+        if nl < 2:
+            rep.unk("C16.pause", fl + ".before.every-helper", "the request / wait loops over call_rcu_data_list are not in a shape this rule recognises (%d of 2 found)" % nl)
         h = ctx.fn(F.lib, "call_rcu_thread")
         rep.touch(h)
         _helper_pause(rep, h, fl + ".helper", "call_rcu_data.flags", FLG.PAUSE, FLG.PAUSED, F.pfx + "_unregister_thread", F.pfx + "_register_thread", bp=(fl == "bp"))
@@ -195,6 +216,12 @@ def rule_pause(ctx, rep):
     # requester side (urcu_workqueue_pause_worker, used by the hash table's before-fork hook): set PAUSE, then wake, then wait for PAUSED
     rep.touch(pw)
     orr = [e.inst for e in pat.accesses(pw, "urcu_workqueue.flags", ("rmw",)) if e.rop == "or" and ir.const_of(pw, e.val) == PAUSE]
+    ackd = [(t.blk.id, s_) for t, s_, a in pat.branch_edges_on(pw, lambda a: a[0] == "ne" and a[2] == ("c", 0) and a[1][0] == "bin" and a[1][1] == "and" and a[1][3] == ("c", PAUSED[0]))]
+    if ackd:
+        rep.must_take_edge("C16.pause", "workqueue.pause_worker.returns-only-once-PAUSED", pw, orr, None, ackd, to_exit=True, include_start=True,
+                           what="pause_worker returns only along (flags & PAUSED) != 0: an empty queue does not mean an idle worker (it splices the queue out before it runs the batch)")
+    else:
+        rep.bad("C16.pause", "workqueue.pause_worker.returns-only-once-PAUSED", "pause_worker does not wait for the worker to acknowledge PAUSED", [pw.name])
     wk = pat.loads(pw, "urcu_workqueue.futex")
     if not wk:
         wkc = [c for c in pw.all_insts() if c.op == "call" and c.callee and "wake" in c.callee]
